@@ -5,6 +5,7 @@ import hashlib
 import json
 import os
 import re
+import shutil
 import subprocess
 import sys
 import time
@@ -237,6 +238,43 @@ def tlc_validate_trace(trace_path, module, cfg, timeout=1200):
     if "Invariant" in text and "is violated" in text:
         return False, -1, text[-1500:], states
     raise ToolError("trace validation did not complete:\n" + text[-2500:])
+
+
+def apalache_cached(name, module, obligations, timeout=1800, only_if_cached=False):
+    """Discharges proof obligations of spec/<module>.tla with Apalache (bounded symbolic checks used as an
+    inductive-invariant proof): obligations = [(label, [apalache-mc check args...])].  The result is cached
+    by the content of the module.  Returns {"obligations": [...], "seconds": s} or None (only_if_cached and
+    nothing cached).  A failed obligation is a defect of the specification: ToolError."""
+    h = spec_digest(module)
+    h.update(repr(obligations).encode())
+    d = os.path.join(CACHE, f"{name}-{h.hexdigest()[:24]}")
+    statp = os.path.join(d, "apalache.json")
+    if os.path.exists(statp):
+        with open(statp) as f:
+            return json.load(f)
+    if only_if_cached:
+        return None
+    os.makedirs(d, exist_ok=True)
+    work = os.path.join(d, "work")
+    os.makedirs(work, exist_ok=True)
+    for m in module_closure(module):
+        shutil.copy(os.path.join(SPEC, m + ".tla"), work)
+    t = time.time()
+    done = []
+    for label, args in obligations:
+        cmd = ["timeout", str(timeout), "apalache-mc", "check"] + list(args) + [f"--out-dir={os.path.join(work, 'out')}", module + ".tla"]
+        log(f"[apalache] {name}: {label}: {' '.join(cmd)}")
+        r = subprocess.run(cmd, cwd=work, stdout=subprocess.PIPE, stderr=subprocess.STDOUT, env=ENV)
+        text = r.stdout.decode(errors="replace")
+        if r.returncode != 0 or "The outcome is: NoError" not in text:
+            raise ToolError(f"apalache obligation `{label}` of {module} was not discharged (rc {r.returncode}):\n" + text[-2500:])
+        done.append(label)
+    shutil.rmtree(work, ignore_errors=True)
+    res = {"obligations": done, "seconds": round(time.time() - t, 1)}
+    with open(statp, "w") as f:
+        json.dump(res, f)
+    log(f"[apalache] {name}: {len(done)} obligations discharged in {res['seconds']}s")
+    return res
 
 
 def load_known():
